@@ -136,6 +136,10 @@ func (f *File) WriteAt(p []byte, off int64) (n int, err error) {
 	if evicted {
 		return 0, ErrEvicted
 	}
+	if len(p) == 0 {
+		// Like a file, writing nothing changes nothing (resizing would grow the blob to off).
+		return 0, nil
+	}
 
 	end := int(off) + len(p)
 	buf, resized := resizeSliceIfNecessary(buf, end)
@@ -168,6 +172,9 @@ func (f *File) Write(p []byte) (n int, err error) {
 	buf, evicted := f.getData()
 	if evicted {
 		return 0, ErrEvicted
+	}
+	if len(p) == 0 {
+		return 0, nil
 	}
 
 	end := int(f.off) + len(p)
